@@ -21,3 +21,8 @@ Check (C12_session_gap : forall g ops outs s,
   0 <= g -> in_order (arrivals ops) -> run (init (KSession g)) ops = (outs, s) ->
   Forall (gaps_ok g) (all_windows outs ++ [buffered s])).
 Print Assumptions C12_session_gap.
+
+Check (C12_partition_partitioned : forall k ops outs s key,
+  pclosing_kind k -> run (init k) ops = (outs, s) ->
+  of_key key (concat (all_windows outs)) ++ pbuffered key s = of_key key (arrivals ops)).
+Print Assumptions C12_partition_partitioned.
